@@ -567,12 +567,26 @@ func main() {
 				continue
 			}
 			var sStr, sSvg, sPdf, sPs, pm string
+			// one print case in six runs under another configured output precision (canvas.Precision, default 8): the printers
+			// must follow it; the judge's tolerances scale with it
+			prec, kS := 8, ""
+			if fam != "print-decimal" && r.P(1, 6) {
+				if r.Bool() {
+					prec, kS = 10, "(1 # 10)"
+				} else {
+					prec, kS = 6, "1000"
+				}
+				fam += fmt.Sprintf(":precision%d", prec)
+			}
 			func() {
 				defer func() {
 					if x := recover(); x != nil {
 						pm = fmt.Sprint(x)
 					}
 				}()
+				old := canvas.Precision
+				canvas.Precision = prec
+				defer func() { canvas.Precision = old }()
 				sStr, sSvg, sPdf, sPs = p.String(), p.ToSVG(), p.ToPDF(), p.ToPS()
 			}()
 			rr := parsePath(sStr)
@@ -601,7 +615,11 @@ func main() {
 			}
 			term := "KNone"
 			if pm == "" && finite(rdata) {
-				term = fmt.Sprintf("KPrint %s %s %s %s %s %s %s %s %s", cq.Floats(d), hexs(sStr), hexs(sSvg), hexs(sPdf), hexs(sPs), cq.Z(int64(rr.class)), cq.Floats(rdata), cq.List(cs), arcOracle(rdata))
+				if kS != "" {
+					term = fmt.Sprintf("KPrintP %s %s %s %s %s %s %s %s %s %s", kS, cq.Floats(d), hexs(sStr), hexs(sSvg), hexs(sPdf), hexs(sPs), cq.Z(int64(rr.class)), cq.Floats(rdata), cq.List(cs), arcOracle(rdata))
+				} else {
+					term = fmt.Sprintf("KPrint %s %s %s %s %s %s %s %s %s", cq.Floats(d), hexs(sStr), hexs(sSvg), hexs(sPdf), hexs(sPs), cq.Z(int64(rr.class)), cq.Floats(rdata), cq.List(cs), arcOracle(rdata))
+				}
 			}
 			o.Emit(out.Case{I: i, Fam: fam, Coq: term, Desc: desc})
 		default: // ParseSVG on mutated documents: Go side only
